@@ -14,7 +14,8 @@ EMPTY_MD5 = "d41d8cd98f00b204e9800998ecf8427e"
 
 RULE = ("1-3 Directory volumes (any mix of read-only / writable / marked full, replication 0-3), one or two "
         "target blocks whose copies are planted per volume as intact / single bit flip / truncation / appended "
-        "bytes / another valid block under the name / zero-length / missing (plus a real MD5 collision pair), "
+        "bytes (also past BlockSize, as sparse files) / another valid block under the name / zero-length / missing "
+        "(plus a real MD5 collision pair; one block in ten is the empty block), "
         "followed by 1-6 GET/HEAD/PUT requests (PUT with matching body, corrupted body, new block, unknown "
         "length); exhaustive bit-flip and truncation sweeps over one small block per run; thorough adds sizes "
         "around 2^15, 2^16, 2^18, 2^20 and BlockSize-1/BlockSize/BlockSize+1. A case is non-trivial when it "
@@ -85,13 +86,31 @@ def _expand(gen):
             del buf[int(op[1:]):]
         elif op[0] == "a":
             buf += bytes.fromhex(op[1:])
+        elif op[0] == "z":
+            buf += bytes(int(op[1:]) - len(buf))
     return buf
+
+
+_ZEROS = bytes(1 << 22)
 
 
 def sym(gen):
     if gen not in _SYM_CACHE:
-        buf = _expand(gen)
-        _SYM_CACHE[gen] = (hashlib.md5(buf).hexdigest(), len(buf))
+        head, _, last = gen.rpartition("~")
+        if head and last.startswith("z"):
+            # zero-extension as the last op: hash incrementally instead of building the bytes
+            buf = _expand(head)
+            total = int(last[1:])
+            hsh = hashlib.md5(buf)
+            todo = total - len(buf)
+            while todo > 0:
+                n = min(todo, len(_ZEROS))
+                hsh.update(_ZEROS[:n] if n < len(_ZEROS) else _ZEROS)
+                todo -= n
+            _SYM_CACHE[gen] = (hsh.hexdigest(), total)
+        else:
+            buf = _expand(gen)
+            _SYM_CACHE[gen] = (hashlib.md5(buf).hexdigest(), len(buf))
     m, n = _SYM_CACHE[gen]
     return Content(f"s{m}.{n}.{gen}", m, n)
 
@@ -140,6 +159,10 @@ class SymFactory:
 
     def append(self, c, extra):
         return sym(self._gen(c) + "~a" + extra.hex())
+
+    def zext(self, c, total):
+        """c followed by zero bytes up to `total` bytes (planted as a sparse file by the driver)"""
+        return sym(self._gen(c) + f"~z{total}")
 
 
 # ----------------------------------------------------------------------------- generator
@@ -198,7 +221,8 @@ def _random_case(rng, fac, sizes, collision=False):
         blocks = [lit(COLL_A)]
         other_of = {blocks[0].md5: lit(COLL_B)}
     else:
-        blocks = [fac.fresh(rng.choice(sizes)) for _ in range(rng.choice([1, 1, 2]))]
+        # the empty block is a named boundary of the property: one block in ten
+        blocks = [fac.fresh(0 if rng.random() < 0.1 else rng.choice(sizes)) for _ in range(rng.choice([1, 1, 2]))]
         other_of = {}
     kinds = []
     vols = []
@@ -302,6 +326,45 @@ def _boundary_case(rng, fac, n, scen):
     return _mkcase(vols, reqs, kinds)
 
 
+def _oversize_case(rng, fac):
+    """'extended' copies that grow past BlockSize (block followed by zero bytes, sparse on disk),
+    on any subset of the volumes, with GET/HEAD/PUT of the block"""
+    b = fac.fresh(rng.choice([0, 1, 17, 64, 4096]))
+    h = b.md5
+    nvol = rng.choice([1, 2, 2, 3])
+    forced = rng.randrange(nvol) if rng.random() < 0.7 else -1
+    vols, kinds = [], []
+    for i in range(nvol):
+        flags = "w" if i == forced else _volflags(rng)
+        r = rng.random()
+        if i == forced or r < 0.35:
+            total = BLOCKSIZE + rng.choice([1, 1, 2, 4096]) if rng.random() < 0.8 else BLOCKSIZE
+            files, k = [(h, fac.zext(b, total))], ("oversize" if total > BLOCKSIZE else "append")
+        elif r < 0.55:
+            files, k = [(h, b)], "intact"
+        elif r < 0.75:
+            c, k = _corrupt(rng, fac, b, rng.choice(["flip", "trunc", "append", "other", "empty"]))
+            files = [(h, c)]
+        else:
+            files, k = [], "missing"
+        kinds.append(k)
+        vols.append((flags, rng.choice([0, 1, 2]), files))
+    reqs = []
+    for _ in range(rng.choice([2, 3, 4])):
+        r = rng.random()
+        if r < 0.3:
+            reqs.append(f"G:{h}")
+        elif r < 0.4:
+            reqs.append(f"H:{h}")
+        elif r < 0.85:
+            reqs.append(f"P:{h}:{b.spec}")
+        else:
+            c, _ = _corrupt(rng, fac, b, rng.choice(["flip", "append", "empty"]))
+            reqs.append(f"P:{h}:{c.spec}")
+    reqs.append(f"G:{h}")
+    return _mkcase(vols, reqs, kinds)
+
+
 def generate(rng, tier):
     cases = []
     litf, symf = LitFactory(rng), SymFactory(rng)
@@ -319,6 +382,9 @@ def generate(rng, tier):
     for n in ((1 << 20) + 1, (2 << 20) + 1):
         for scen in (0, 3, 5):
             cases.append(_boundary_case(rng, symf, n, scen + 6 * rng.randrange(4)))
+    # copies extended past BlockSize (TooLongError paths of stat / Get / Compare)
+    for _ in range(10 if tier == "quick" else 80):
+        cases.append(_oversize_case(rng, symf))
     if tier != "quick":
         mids = [32767, 32768, 32769, 65535, 65536, 65537, (1 << 18) - 1, 1 << 18, (1 << 18) + 1,
                 (1 << 20) - 1, 1 << 20, (1 << 20) + 1, (2 << 20) + 1]
